@@ -55,6 +55,30 @@ type defSpec struct {
 type gen struct {
 	rnd *rand.Rand
 	n   int
+	// filter-vocabulary edge mode (second batch of cases, own random stream): edge > 0 makes the generator drop the
+	// `type` keyword from filters of every kind (const, enum, pattern with 0|1 group, const+pattern, type-only -> {},
+	// mismatching type) on every kind of value, include the rarer filter options always and steer wallets towards
+	// near-matching credentials. With edge == 0 no extra random numbers are drawn (the main batch stays as it was).
+	edge    float64
+	edgeNow float64 // per definition: how often a filter loses its `type`
+}
+
+// typeless returns the filter option with the `type` keyword removed. The values meant (not) to satisfy stay those of
+// the typed filter: they only steer the synthesis of credentials.
+func typeless(o filterOpt) filterOpt {
+	f := map[string]any{}
+	for k, v := range o.filter {
+		if k != "type" {
+			f[k] = v
+		}
+	}
+	return filterOpt{kind: "typeless/" + o.kind, filter: f, good: o.good, bad: o.bad}
+}
+
+// rare: the rarer filter options are drawn with probability x in the main batch and always in edge mode.
+func (g *gen) rare(x float64) bool {
+	r := g.p(x)
+	return r || g.edge > 0
 }
 
 func (g *gen) p(x float64) bool        { return g.rnd.Float64() < x }
@@ -172,7 +196,7 @@ func stringOpts(pool []string, pats []pat, wrap func(string, *gen) any) func(g *
 			{kindP, map[string]any{"type": "string", "pattern": pt.re}, wrapAll(pt.good, g), wrapAll(pt.bad, g)},
 			{"nofilter", nil, wrapAll(pool, g), nil},
 		}
-		if g.p(0.15) {
+		if g.rare(0.15) {
 			opts = append(opts,
 				filterOpt{"type-mismatch", map[string]any{"type": "number"}, anys(5.0), wrapAll(pool, g)},
 				filterOpt{"type-mismatch", map[string]any{"type": "boolean"}, anys(true), wrapAll(pool, g)},
@@ -218,7 +242,7 @@ func numberOpts(g *gen) []filterOpt {
 		{"nofilter", nil, nums, nil},
 		{"number+pattern", map[string]any{"type": "number", "pattern": "^2"}, nums, anys("2")},
 	}
-	if g.p(0.2) {
+	if g.rare(0.2) {
 		opts = append(opts,
 			filterOpt{"number-const-string", map[string]any{"type": "number", "const": "2"}, nil, anys(2.0, "2")},
 			filterOpt{"number-enum-string", map[string]any{"type": "number", "enum": anys("1", "2")}, nil, anys(1.0, "1")},
@@ -234,7 +258,7 @@ func boolOpts(g *gen) []filterOpt {
 		{"type:boolean", map[string]any{"type": "boolean"}, anys(true, false), anys("true", 1.0)},
 		{"nofilter", nil, anys(true, false), nil},
 	}
-	if g.p(0.2) {
+	if g.rare(0.2) {
 		opts = append(opts,
 			filterOpt{"bool-const-string", map[string]any{"type": "boolean", "const": "true"}, nil, anys(true, "true")},
 			filterOpt{"type-mismatch", map[string]any{"type": "string"}, anys("true"), anys(true)},
@@ -253,7 +277,7 @@ func tagsOpts(g *gen) []filterOpt {
 		filterOpt{"array/type:number", map[string]any{"type": "number"}, anys(anys("red", 2.0), anys(1.0)), anys(anys("red"), anys())},
 		filterOpt{"array/type:boolean", map[string]any{"type": "boolean"}, anys(anys(true, "x")), anys(anys("true"), anys(1.0))},
 	)
-	if g.p(0.3) {
+	if g.rare(0.3) {
 		opts = append(opts,
 			filterOpt{"array-const", map[string]any{"type": "array", "const": "red"}, nil, anys(anys("red"))},
 			filterOpt{"array-enum", map[string]any{"type": "array", "enum": anys("red", "blue")}, nil, anys(anys("red"), anys("blue", "x"))},
@@ -412,6 +436,9 @@ func (g *gen) field(idPrefix string, n int) (fieldSpec, map[string]any) {
 	}
 	opts := a.opts(g)
 	fs := fieldSpec{attr: a, opt: opts[g.rnd.Intn(len(opts))]}
+	if g.edge > 0 && fs.opt.filter != nil && g.p(g.edgeNow) {
+		fs.opt = typeless(fs.opt)
+	}
 	if a.top {
 		fs.paths = []string{"$." + a.name}
 		if g.p(0.2) {
@@ -461,6 +488,9 @@ func (g *gen) descriptor(i int) (*descSpec, map[string]any) {
 		f := map[string]any{"path": anys(path), "filter": map[string]any{"type": "string", "const": d.typ}}
 		if g.p(0.2) {
 			f["filter"] = map[string]any{"type": "string", "pattern": "^" + d.typ[:3]}
+		}
+		if g.edge > 0 && g.p(g.edgeNow/2) {
+			delete(f["filter"].(map[string]any), "type")
 		}
 		if g.p(0.2) {
 			f["id"] = fmt.Sprintf("d%d_type", i)
@@ -553,6 +583,9 @@ func collectGroups(m map[string]any, into map[string]bool) {
 func (g *gen) definition() *defSpec {
 	g.n++
 	ds := &defSpec{}
+	if g.edge > 0 {
+		g.edgeNow = g.edge * []float64{0.4, 1, 1.8}[g.rnd.Intn(3)]
+	}
 	tree := map[string]any{"id": fmt.Sprintf("pd-%d", g.n)}
 	if g.p(0.3) {
 		tree["name"] = "generated definition"
@@ -944,7 +977,11 @@ func (g *gen) wallet(ds *defSpec) *wallet {
 		w.class = "empty"
 		return w
 	}
-	complete := g.p(0.7) // steer towards wallets that can satisfy everything
+	pComplete := 0.7
+	if g.edge > 0 {
+		pComplete = 0.35
+	}
+	complete := g.p(pComplete) // steer towards wallets that can satisfy everything
 	for _, d := range ds.descs {
 		roll := g.weighted(55, 27, 18)
 		if complete && roll != 0 && g.p(0.85) {
